@@ -1124,9 +1124,16 @@ func runScenario(sc scenario) (out swOutcome) {
 			if out.inconclusive != "" {
 				return
 			}
+			// stop at the first statement-level violation; a skipped call site alone lets the scenario go on
+			// so that its consequence (a blocked remote admitted) is witnessed as well
 			for _, h := range hosts {
 				h.mon.mu.Lock()
-				n := len(h.mon.viol)
+				n := 0
+				for _, v := range h.mon.viol {
+					if !strings.HasPrefix(v.sig, "swarm/gate-not-consulted/") {
+						n++
+					}
+				}
 				h.mon.mu.Unlock()
 				if n > 0 {
 					return
